@@ -90,6 +90,16 @@ def probe_inputs(seed=0, n=40):
             parts.append(s)
             parts.append(rng.choice([" ", "\n", ". ", " and ", "/", "x"]))
         texts.append("".join(parts))
+    # texts holding the same vector in two spellings, and one vector many times among others
+    for ver in ("2", "3"):
+        for _ in range(4):
+            p, m, s = V.rand_vector(rng, ver, p_opt=0.5)
+            s2 = V.spell(p, V.nd_variants(ver, m, rng, 1)[-1], "shuffle", rng)
+            other = [x for v, x in vec if v in ("2", "3")]
+            parts = [s2, s, rng.choice(other), s2, rng.choice(other), s]
+            if rng.random() < 0.5:
+                parts.reverse()
+            texts.append(" ; ".join(parts))
     dialogues = []
     for vt in ("2", "3.0", "3.1", "4"):
         for am in (False, True):
@@ -132,7 +142,9 @@ def observe(inputs):
         out["rh"].append({"clean": o.clean_vector()} if ok else {"error": type(o).__name__, "message": str(o)})
     for t in inputs["texts"]:
         ok, res = obs.call(L.parser.parse_cvss_from_text, t)
-        out["texts"].append(sorted([type(o).__name__, o.clean_vector(), list(o.scores())] for o in res) if ok
+        # in the order returned, with the string each object was built from (which of two
+        # equal spellings survives is part of the output)
+        out["texts"].append([[type(o).__name__, o.clean_vector(), list(o.scores()), o.as_json()["vectorString"]] for o in res] if ok
                             else {"error": type(res).__name__})
     for vt, am, answers in inputs["dialogues"]:
         r = DLG.run_dialogue(vt, am, list(answers), limit=len(answers) + 5)
